@@ -419,7 +419,8 @@ def may_suspend_await(p, aw, fn, seen=None):
     targets = resolve_callees(p, v, fn)
     if not targets:
         return True
-    return any(may_suspend_fn(p, t, seen) for t in targets)
+    # awaiting what a plain `def` returns (a lister with __await__, a future, a task) suspends for all we know
+    return any(not isinstance(t, ast.AsyncFunctionDef) or may_suspend_fn(p, t, seen) for t in targets)
 
 
 def may_suspend_node(p, node, fn):
